@@ -115,6 +115,11 @@ def gen_kwargs(rng, name):
               "committer_date": gen_tstz(rng) if committer is not None and rng.random() < 0.8 else None,
               "type": rng.choice(list(model.RevisionType)), "directory": rb(rng), "synthetic": rng.random() < 0.5,
               "parents": tuple(rb(rng) for _ in range(rng.randrange(0, 3)))}
+        if kw["parents"] and rng.random() < 0.35:
+            # git history does contain commits that list the same parent twice
+            ps = list(kw["parents"])
+            ps.insert(rng.randrange(len(ps) + 1), rng.choice(ps))
+            kw["parents"] = tuple(ps)
         r = rng.random()
         if r < 0.4:
             kw["extra_headers"] = tuple((rng.choice([b"gpgsig", b"x"]), rng.choice([b"", b"a\nb"])) for _ in range(rng.randrange(0, 3)))
